@@ -282,6 +282,10 @@ def vec_index(interp, env, v, e):
             idx = (len(items) - e[1]) if e[2] else e[1]
         elif e[0] == "i":
             idx = env.get(e[1], TOP)
+        elif e[0] == "sub":
+            lo_ = (v.lo or 0) + e[1]
+            hi_ = (v.lo or 0) + ((len(items) - e[2]) if e[3] else e[2])
+            return Vec(v.vid, True, lo_, hi_)
         else:
             return TOP
         if isinstance(idx, int) and not isinstance(idx, bool) and 0 <= idx < len(items):
@@ -571,6 +575,18 @@ def _coll_oracle(interp, env, f, args, t, bb, path):
             interp.mstate["shuffled"] = interp.mstate.get("shuffled", ()) + (v0.vid,)
             return unit
         by_ref = (f.get("resolved", {}).get("key") or "").startswith("<&") or ((f.get("gargs") or [""])[0].startswith("&")) or not isinstance(a0, Vec) or a0.borrowed
+        if nm in ("retain", "retain_mut") and len(args) == 2 and sa == "alloc::vec::Vec" and v0.lo is None:
+            # the predicate may be a stateful FnMut (a counter captured by value): it lives in a cell and is called through a reference
+            cell = new_vec(interp, [args[1]])
+            keep = []
+            for i_ in range(len(items)):
+                r_ = _call1(interp, HRef(cell.vid, 0), [HRef(v0.vid, off + i_)])
+                if not isinstance(r_, bool):
+                    return TOP
+                if r_:
+                    keep.append(heap_get(interp, v0.vid)[off + i_])
+            view_set(interp, v0, keep)
+            return unit
         if nm in ("chunks", "chunks_exact", "chunks_mut", "chunks_exact_mut") and isinstance(args[1], int) and args[1] > 0:
             c = args[1]
             refs = [HRef(v0.vid, off + i) for i in range(len(items))]
@@ -673,10 +689,30 @@ def _coll_oracle(interp, env, f, args, t, bb, path):
                     return TOP
                 res = res or r
             return res
-        if nm in ("iter", "into_iter"):
+        if nm in ("iter", "into_iter", "iter_mut"):
             return It(v0.fields)
         if nm == "len":
             return len(v0.fields)
+        if nm in ("split_first", "split_last", "split_first_mut", "split_last_mut") and len(args) == 1:
+            if not v0.fields:
+                return NONE
+            if nm.startswith("split_first"):
+                return some(Agg("tuple", None, None, [v0.fields[0], Agg("slice", None, None, v0.fields[1:])]))
+            return some(Agg("tuple", None, None, [v0.fields[-1], Agg("slice", None, None, v0.fields[:-1])]))
+        if nm in ("split_at", "split_at_mut") and len(args) == 2 and isinstance(args[1], int) and not isinstance(args[1], bool):
+            if args[1] > len(v0.fields):
+                return "DIVERGE"
+            return Agg("tuple", None, None, [Agg("slice", None, None, v0.fields[:args[1]]), Agg("slice", None, None, v0.fields[args[1]:])])
+        if nm in ("chunks", "chunks_exact", "chunks_mut", "chunks_exact_mut") and len(args) == 2 and isinstance(args[1], int) and args[1] > 0:
+            c_ = args[1]
+            out_ = [Agg("slice", None, None, v0.fields[i_:i_ + c_]) for i_ in range(0, len(v0.fields), c_)]
+            if "exact" in nm:
+                rem_ = [x for x in out_ if len(x.fields) != c_]
+                out_ = [x for x in out_ if len(x.fields) == c_]
+                return It(out_, extra={"remainder": rem_[0] if rem_ else Agg("slice", None, None, [])})
+            return It(out_)
+        if nm == "windows" and len(args) == 2 and isinstance(args[1], int) and args[1] > 0:
+            return It([Agg("slice", None, None, v0.fields[i_:i_ + args[1]]) for i_ in range(0, len(v0.fields) - args[1] + 1)])
     # ---- integer ranges and repeat
     if isinstance(v0, Agg) and v0.name in ("core::ops::range::Range", "core::ops::range::RangeInclusive") and len(v0.fields) >= 2 \
             and all(isinstance(x, int) and not isinstance(x, bool) for x in v0.fields[:2]):
@@ -791,8 +827,15 @@ def _coll_oracle(interp, env, f, args, t, bb, path):
         if any(l is None for l in lists):
             return TOP
         return It([Agg("tuple", None, None, list(xs)) for xs in zip(*lists)])
+    if isinstance(v0, Agg) and v0.kind == "itertools-chunks" and nm == "into_iter":
+        return It(v0.fields)
     if isinstance(v0, It):
         it = v0
+        if dk == "itertools::Itertools::chunks" and len(args) == 2 and isinstance(args[1], int) and args[1] > 0:
+            xs_ = list(it.items)
+            return Agg("itertools-chunks", None, None, [It(xs_[i_:i_ + args[1]]) for i_ in range(0, len(xs_), args[1])])
+        if dk == "itertools::Itertools::collect_vec":
+            return new_vec(interp, list(it.items))
         if nm in ("remainder", "into_remainder") and "remainder" in it.extra:
             return it.extra["remainder"]
         if nm == "by_ref":
